@@ -137,6 +137,14 @@ CLAIMS = {
         "No controlling terminal in the case process (terminal hand-over not exercised); single faults only; races between stage threads are observed in real time, not enumerated: a scheduling-sensitive observation counts only when reproduced 3 out of 3; fds a finalizer closes are counted after gc.collect().",
         "DESIGN.md §3 C09",
     ),
+    "C02": (
+        "exploration",
+        "bounded-exhaustive product of binder kinds x command-looking uses x scope placements through the real Execer, compared with ast.parse and CPython exec on instrumented objects with a spawn recorder",
+        "gramx",
+        "The full product of 95 binder kinds, 26 command-looking use shapes and scope placements to depth 2 (thorough 3), with statement wrappers, other-scope interludes, `del` forms and 22 syntactically broken tails, is pushed through the real Execer.parse / Execer.exec with every spawn recorded; the transformed tree must equal ast.parse (location-free), execution on instrumented objects must match CPython's exec (operation log, bindings, exception type) with no spawn, a line after `del n` must become the command again, and a broken tail must raise SyntaxError before anything of the input ran.",
+        "mode='exec'; $XONSH_BUILTINS_TO_CMD unset; <= 3 read names; programs on which xonsh's pure parser disagrees with CPython (C01's business) or bare/explicit forms differ (C03's) are dropped and counted; names not bound earlier are out of scope.",
+        "DESIGN.md §3 C02",
+    ),
 }
 
 NOT_YET = "check not built yet (work in progress in this round; see DESIGN.md §3 for the planned exploration)"
@@ -145,7 +153,7 @@ ENGINES = [
     {"name": "crashx", "path": "xv/crashx.py", "serves_properties": ["C09", "C13", "C19"], "kind_free_text": "records the file-operation log of a write history through shims bound into the module under test, then enumerates every crash point, torn write and failing call in forked children; strace syscall injection for libsqlite3"},
     {"name": "pysched", "path": "xv/pysched.py", "serves_properties": ["C06", "C11", "C12"], "kind_free_text": "stateless preemption-bounded exploration of real CPython threads: baton scheduler, line-event scheduling points in named functions, cooperative Lock/Condition/sleep/join shims, DFS over choice prefixes with replay-divergence detection"},
     {"name": "seqx", "path": "xv/seqx.py", "serves_properties": ["C08", "C10", "C11", "C12", "C16", "C19", "C20"], "kind_free_text": "explicit-state breadth-first search whose transitions call the real entry points on a freshly replayed implementation; canonical state hashing; lock-step reference"},
-    {"name": "gramx", "path": "xv/", "serves_properties": ["C04", "C05", "C07", "C14", "C15", "C17"], "kind_free_text": "bounded-exhaustive enumeration of structured inputs run through the real implementation, compared with a reference"},
+    {"name": "gramx", "path": "xv/", "serves_properties": ["C02", "C04", "C05", "C07", "C14", "C15", "C17"], "kind_free_text": "bounded-exhaustive enumeration of structured inputs run through the real implementation, compared with a reference"},
 ]
 
 
